@@ -148,7 +148,7 @@ def slabs(lo, up, nlo, nhi):
 
 
 def certify_optimum(f, lo, up, Lfun, decl_pt, decl_val, feas=None, nb_frac=0.005, max_evals=5_000_000,
-                    value_tol=1e-4, low_tol=2e-3):
+                    value_tol=1e-4, low_tol=2e-3, abs_tol=None, resolve_frac=0.01):
     """The three clauses of C10 for one instance.  Returns dict(messages=[...], evals, undecided, ...)."""
     lo = np.array(lo, dtype=float)
     up = np.array(up, dtype=float)
@@ -160,7 +160,7 @@ def certify_optimum(f, lo, up, Lfun, decl_pt, decl_val, feas=None, nb_frac=0.005
         msgs.append(f"objective at the declared optimum point {decl_pt.tolist()} is {v0!r}, declared value {decl_val!r}")
     if np.any(decl_pt < lo) or np.any(decl_pt > up):
         msgs.append(f"declared optimum point {decl_pt.tolist()} outside the box")
-    tol = low_tol * max(1.0, abs(decl_val))
+    tol = low_tol * max(1.0, abs(decl_val)) if abs_tol is None else abs_tol
     thresh = decl_val - tol
     half = nb_frac * (up - lo)
     nlo = np.maximum(lo, decl_pt - half)
@@ -180,7 +180,7 @@ def certify_optimum(f, lo, up, Lfun, decl_pt, decl_val, feas=None, nb_frac=0.005
     for (a, b) in slabs(lo, up, nlo, nhi):
         # far region: nothing below thresh (clause ii) and nothing at or below the best of the neighbourhood (iii)
         goal = max(thresh, min(best_nb, decl_val + tol)) if np.isfinite(best_nb) else thresh
-        w = cov.clear(a, b, goal, strict=True, floor=min(lb_nb, goal), resolve=0.01 * tol)
+        w = cov.clear(a, b, goal, strict=True, floor=min(lb_nb, goal), resolve=resolve_frac * tol)
         for c, v in w:
             if v < thresh:
                 wit_low.append((c, v))
